@@ -13,11 +13,28 @@ Two further case classes (both are `type` / `attr` / `value` cases for the model
   * pairs of DIFFERENT kinds with one name (`xkind`): structure / union / delimited / service with the same full
     name and version, X against an array of X, padding against a nameless void field, a rational against a boolean ...
 
-Outcome: {"eq", "sym", "refl", "hash_eq", "alias_ok", "pickle_ok", "str_a", "str_b"}.
+  * look-alikes (`alike`, gen_lookalike): two descriptions that differ in exactly ONE observable while every other one
+    COINCIDES, numeric coincidences of bit length sets across different shapes included: a sealed composite whose first
+    32 bits are fields / length prefixes / a union tag against a delimited one of the same name (32-bit delimiter header)
+    with the matching extent; structure [8 bits, X] against union [X, Y inside X]; equal (min, max, residues mod 32) with
+    different sets; same kind / name / set with different members; and pairs identical up to ONE attribute of the
+    definition (version, name, namespace - in the string form; deprecation, port-ID, doc, source path - not in it), also
+    as element / attribute types.  A composite description may carry a fourth element `meta` for that purpose
+    ({"name", "ns", "ver", "dep", "pid", "doc", "dir", "file"}).
+  * cross-process (`xproc`: a share of the cases of EVERY kind, and one corpus case per kind of object): both objects -
+    alone, in a list / tuple / dict, as a field's type and inside a holder structure with padding and a constant - are
+    hashed and pickled here, unpickled by an interpreter with ANOTHER string-hash seed and compared there (==, hash, set /
+    dict lookups, string form, layout, member by member; also through copy / deepcopy / pickle made there) with twins built
+    there; then the same the other way round.  Anything interpreter-specific that an object keeps and persists (a stored
+    hash, ...) shows up as "equal objects, different hashes" on the other side.
+
+Outcome: {"eq", "sym", "refl", "hash_eq", "alias_ok", "pickle_ok", "str_a", "str_b", "obs_a", "obs_b", ...}.
 The Lean model decides `eq` (and the hash-key equality) from the keys the library's __eq__/__hash__ inspect.
 Oracle (independent): reflexive, symmetric, eq -> equal hashes, equal descriptions -> equal objects, objects that
-differ in class, string form or (min, max, residues mod 32) of the bit length set -> unequal, accessor lists are
-copies, pickling round-trips.
+differ in class, string form or (min, max, residues mod 32) of the bit length set -> unequal (judged twice: on the
+descriptions, and on what the two objects themselves show - `obs_a` / `obs_b`: equal objects must be indistinguishable in
+kind, string form and bit length set), accessor lists are copies, pickling round-trips (within the process and across
+processes).
 """
 from __future__ import annotations
 
@@ -61,10 +78,23 @@ def type_str(t, names: L._Names) -> str:
             for f in body[1]:
                 type_str(f, names)
         return "ns.%s.1.0" % names.fresh()
-    # composites are named ns.T<n> in construction order (children first), like layout.build_impl does
+    # composites are named ns.T<n> in construction order (children first), like layout.build_impl does; the optional
+    # fourth element of a composite description (`meta`) overrides name / version (and carries the attributes that
+    # never show in the string form: deprecation, port-ID, doc, source path)
     for f in t[1]:
         type_str(f, names)
-    return "ns.%s.1.0" % names.fresh()
+    auto = names.fresh()
+    m = meta_of(t)
+    ver = m.get("ver", [1, 0])
+    return "%s.%s.%d.%d" % (m.get("ns", "ns"), m.get("name", auto), ver[0], ver[1])
+
+
+def meta_of(t) -> dict:
+    return t[3] if t[0] in ("struct", "union") and len(t) > 3 and t[3] else {}
+
+
+def has_meta(t) -> bool:
+    return any(meta_of(st) for st in sub_types(t))
 
 
 def type_cls(t) -> str:
@@ -299,11 +329,12 @@ def build_attr(pydsdl, d, hist: typing.Optional[list] = None, record: typing.Opt
     ty, h = build_any(pydsdl, d["type"]["ty"], hist)      # type: ignore  # (build_any is defined below)
     if record is not None:
         record.append(h)
+    kw = {"doc": d["doc"]} if "doc" in d else {}
     if d["value"] is None:
         if d["type"]["ty"][0] == "void" and not d.get("as_field"):
-            return pydsdl.PaddingField(ty)
-        return pydsdl.Field(ty, d["name"])
-    return pydsdl.Constant(ty, d["name"], build_value(pydsdl, d["value"]))
+            return pydsdl.PaddingField(ty, **kw)
+        return pydsdl.Field(ty, d["name"], **kw)
+    return pydsdl.Constant(ty, d["name"], build_value(pydsdl, d["value"]), **kw)
 
 
 # ------------------------------------------------------------------------------- histories and services
@@ -424,9 +455,18 @@ def build2(pydsdl, t, names: L._Names, h: _Hist, section: typing.Optional[typing
         for ci in range(t[2] if len(t) > 2 else 0):
             attrs.append(pydsdl.Constant(pydsdl.UnsignedIntegerType(8, CM.SATURATED), "C%d" % ci, pydsdl.Rational(ci % 256)))
         cls = pydsdl.StructureType if k == "struct" else pydsdl.UnionType
-        name = "ns." + names.fresh() if section is None else "ns.%s.%s" % section
-        return h.done(cls(name=name, version=pydsdl.Version(1, 0), attributes=attrs, deprecated=False, fixed_port_id=None,
-                          source_file_path=Path("/nonexistent/ns/X.1.0.dsdl"), has_parent_service=section is not None))
+        if section is not None:
+            return h.done(cls(name="ns.%s.%s" % section, version=pydsdl.Version(1, 0), attributes=attrs, deprecated=False, fixed_port_id=None,
+                              source_file_path=Path("/nonexistent/ns/X.1.0.dsdl"), has_parent_service=True))
+        auto = names.fresh()
+        m = meta_of(t)
+        ns = m.get("ns", "ns")
+        ver = m.get("ver", [1, 0])
+        kw = {"doc": m["doc"]} if "doc" in m else {}
+        return h.done(cls(name="%s.%s" % (ns, m.get("name", auto)), version=pydsdl.Version(ver[0], ver[1]), attributes=attrs,
+                          deprecated=bool(m.get("dep", False)), fixed_port_id=m.get("pid"),
+                          source_file_path=Path("/%s/%s/%s.dsdl" % (m.get("dir", "nonexistent"), ns.replace(".", "/"), m.get("file", "X.1.0"))),
+                          has_parent_service=False, **kw))
     if k == "svc":
         # the sections' members are built first (they take the names before the service does, as in type_str)
         cnt = sum(1 for sec in (t[1], t[2]) for st in sub_types(sec) if st[0] in ("struct", "union")) - 2
@@ -441,7 +481,7 @@ def build2(pydsdl, t, names: L._Names, h: _Hist, section: typing.Optional[typing
 
 def build_any(pydsdl, t, plan=None):
     """(object, history record): layout.build_impl for plain descriptions, build2 for histories / services."""
-    if plan is None and not has_svc(t):
+    if plan is None and not has_svc(t) and not has_meta(t):
         return L.build_impl(pydsdl, t, L._Names()), None
     h = _Hist(pydsdl, plan)
     return build2(pydsdl, t, L._Names(), h), h
@@ -564,6 +604,206 @@ def gen_xkind(rng):
     return (a, b) if rng.random() < 0.5 else (b, a)
 
 
+# ------------------------------------------------------------------------------- look-alikes: one observable differs, the rest COINCIDES
+
+U8 = ["prim", 8, "uintsat"]
+NAMES_Q = ["Q", "Q", "Q", "Node", "A_b", "Z9"]
+
+
+def fixed_piece(rng, bits: int, union: bool = False, depth: int = 0):
+    """One field of exactly `bits` bits (a multiple of 8)."""
+    opts = []
+    if bits <= 64:
+        opts += [["prim", bits, "uintsat"], ["prim", bits, "uinttrunc"], ["prim", bits, "intsat"]]
+        if not union:
+            opts.append(["void", bits])
+    if bits in (16, 32, 64):
+        opts.append(["prim", bits, "float" + rng.choice(["sat", "trunc"])])
+    opts.append(["farr", rng.choice([U8, ["prim", 8, "byte"], ["prim", 8, "intsat"]]), bits // 8])
+    if bits % 16 == 0:
+        opts.append(["farr", ["prim", 16, rng.choice(["uintsat", "intsat", "floatsat"])], bits // 16])
+    if bits <= 32:
+        opts.append(["farr", ["prim", 1, "bool"], bits])
+        opts.append(["struct", [["prim", bits, "uintsat"]]])
+    if bits >= 16 and depth < 2:
+        opts.append(["struct", fixed_fields(rng, bits, depth=depth + 1)])
+    return rng.choice(opts)
+
+
+def fixed_fields(rng, bits: int, union: bool = False, depth: int = 0) -> list:
+    """Fields whose lengths sum to exactly `bits` (a multiple of 8); every field starts at a byte boundary."""
+    out = []
+    left = bits
+    while left > 0:
+        b = 8 * rng.randint(1, left // 8) if rng.random() < 0.6 else left
+        if len(out) >= 3:
+            b = left
+        out.append(fixed_piece(rng, b, union, depth))
+        left -= b
+    return out
+
+
+def byte_array(rng, n: int):
+    """Variable-length array of `n` one-byte elements: bit length set {prefix + 8k | k <= n}."""
+    e = rng.choice([U8, U8, ["prim", 8, "byte"], ["prim", 8, "utf8"], ["prim", 8, "intsat"], ["prim", 8, "uinttrunc"], ["farr", U8, 1]])
+    return ["varr", e, n]
+
+
+def gen_headed(rng, form: typing.Optional[str] = None, par=None):
+    """A SEALED composite whose bit length set is exactly {32 + 8k | k <= n}: what a delimited type of extent 8n has
+    (32-bit delimiter header + any number of bytes up to the extent).  The 32 leading bits are fields, length prefixes
+    and / or a union tag.  Returns (description, n, form, parameters) - the same form and parameters give another shape
+    with the same set."""
+    form = form or rng.choice(["fixed", "bytes", "bytes", "bytes", "bits", "union", "two"])
+    if form == "fixed":
+        return ["struct", fixed_fields(rng, 32)], 0, form, None
+    if form == "bytes":
+        p, n = par or rng.choice([(8, rng.choice([1, 2, 3, 4, 100, 255, rng.randint(1, 255)])),
+                                  (16, rng.choice([256, 257, 1000, 65535, rng.randint(256, 65535)])),
+                                  (32, rng.choice([65536, 65537, 2**20, 2**32 - 1, rng.randint(65536, 2**32 - 1)]))])
+        fs = fixed_fields(rng, 32 - p) if p < 32 else []
+        fs.insert(rng.randint(0, len(fs)), byte_array(rng, n))
+        return ["struct", fs], n, form, (p, n)
+    if form == "bits":
+        # elements narrower than a byte: the final padding of the structure rounds every length up to a byte
+        w, cap = par or (rng.randint(1, 7), rng.randint(1, 255))
+        e = ["prim", 1, "bool"] if w == 1 and rng.random() < 0.5 else ["prim", w, rng.choice(["uintsat", "uinttrunc"] + (["intsat"] if w >= 2 else []))]
+        return ["struct", fixed_fields(rng, 24) + [["varr", e, cap]]], -(-w * cap // 8), form, (w, cap)
+    if form == "two":
+        n1, n2 = par or (rng.randint(1, 255), rng.randint(1, 255))
+        fs = [byte_array(rng, n1), byte_array(rng, n2)] + fixed_fields(rng, 16)
+        rng.shuffle(fs)
+        return ["struct", fs], n1 + n2, form, (n1, n2)
+    # union: 8-bit tag; one variant attains every length 24 + 8k, the others are among them
+    n = par if par is not None else rng.choice([0, 1, 3, 7, 255, rng.randint(1, 255)])
+
+    def variant(full: bool):
+        if n == 0 or (not full and rng.random() < 0.5):
+            m = 0 if n == 0 else rng.randint(0, min(n, 5))
+            return fixed_piece(rng, 24 + 8 * m, union=True)
+        m = n if full else rng.randint(1, n)
+        fs = fixed_fields(rng, 16) + [byte_array(rng, m)]
+        rng.shuffle(fs)
+        return ["struct", fs]
+
+    vs = [variant(True)] + [variant(False) for _ in range(rng.choice([1, 1, 2]))]
+    rng.shuffle(vs)
+    return ["union", vs], n, form, n
+
+
+def small_inner(rng, ext: int):
+    """A definition that fits into an extent of `ext` bits."""
+    for _ in range(6):
+        k = rng.choice(["struct", "struct", "union"])
+        t = [k, gen_fields(rng, k == "union")] if rng.random() < 0.6 else ["struct", [L.gen_prim_field(rng) for _ in range(rng.choice([0, 1, 2]))]]
+        if L.s_valid(["delim", L.strip(t), ext]):
+            return t
+    return ["struct", []]
+
+
+def with_meta(t, **m):
+    """`t` (a structure / union / delimited description) with the meta attributes of its top-level definition set."""
+    if t[0] == "delim":
+        return ["delim", with_meta(t[1], **m), t[2]]
+    old = dict(meta_of(t))
+    old.update(m)
+    return [t[0], t[1], t[2] if len(t) > 2 else 0, old]
+
+
+META_ALTS = {
+    "dep": lambda rng, v: not v,
+    "pid": lambda rng, v: rng.choice([0, 1, 100, 8191]) if v is None else rng.choice([None, (v + 1) % 8192]),
+    "doc": lambda rng, v: (v or "") + rng.choice([" ", "x", "\n"]),
+    "dir": lambda rng, v: "elsewhere",
+    "file": lambda rng, v: rng.choice(["Y.1.0", "X.2.7", "123.X.1.0"]),
+    "ver": lambda rng, v: rng.choice([[v[0], v[1] + 1], [v[0] + 1, v[1]], [v[1], v[0]] if v[0] != v[1] else [v[0] + 1, v[1] + 1], [0, 1] if v != [0, 1] else [1, 0]]),
+    "name": lambda rng, v: rng.choice([v + "_", v.lower() if v.lower() != v else v.upper(), v + "1", "Q_" if v != "Q_" else "Q"]),
+    "ns": lambda rng, v: rng.choice(["nt", "ns.sub", "Ns"]) if v == "ns" else "ns",
+}
+META_DEFAULT = {"dep": False, "pid": None, "doc": "", "dir": "nonexistent", "file": "X.1.0", "ver": [1, 0], "name": "Q", "ns": "ns"}
+META_IN_STR = ("ver", "name", "ns")
+
+
+def gen_lookalike(rng):
+    """(a, b, sub-class): two descriptions that differ in ONE observable while the others coincide - in particular the
+    numeric key (min, max, residues mod 32) of the bit length set coincides across different shapes / kinds."""
+    sub = rng.choice(["sealed-delim", "sealed-delim", "sealed-delim", "struct-union", "struct-union", "shape", "approx", "meta", "meta", "strform"])
+    base = {"name": rng.choice(NAMES_Q)}
+    if rng.random() < 0.3:
+        base.update(rng.choice([{"ver": [rng.choice([0, 1, 2, 254]), rng.choice([1, 3, 254])]}, {"dep": True}, {"pid": rng.choice([0, 7509, 8191])}, {"doc": "d"}]))
+    if sub == "sealed-delim":
+        sealed, n, _form, _par = gen_headed(rng)
+        inner = small_inner(rng, 8 * n)
+        if rng.random() < 0.3 and n == 0:
+            inner = ["struct", [], rng.choice([1, 2])]
+        a, b = with_meta(sealed, **base), with_meta(["delim", inner, 8 * n], **base)
+        x = rng.random()
+        if x < 0.12:      # one level up: the look-alikes as array elements (one kind again)
+            k, c = rng.choice(["farr", "varr"]), rng.choice([1, 2, 3])
+            a, b = [k, a, c], [k, b, c]
+        elif x < 0.2:     # near miss: the extent is one byte off
+            b = with_meta(["delim", inner, 8 * n + 8], **base)
+    elif sub == "struct-union":
+        # union [X, Y...] with every Y inside X  ~  structure [8-bit field, X]
+        x = rng.choice([fixed_piece(rng, 8 * rng.randint(1, 6), union=True), byte_array(rng, rng.choice([1, 3, 7, 200])),
+                        ["struct", gen_fields(rng, False)], gen_headed(rng)[0]])
+        if not L.s_valid(L.strip(x)):
+            x = U8
+        ys = [copy.deepcopy(x) for _ in range(rng.choice([1, 1, 2]))]
+        if x[0] == "varr" and x[1][0] == "prim" and rng.random() < 0.6:
+            ys[0] = ["prim", 8 + 8 * rng.randint(0, min(x[2], 7)), "uintsat"]
+        vs = [x] + ys
+        rng.shuffle(vs)
+        a = with_meta(["struct", [fixed_piece(rng, 8), copy.deepcopy(x)]], **base)
+        b = with_meta(["union", vs], **base)
+        if rng.random() < 0.25:
+            n = rng.choice([0, 1, 8])
+            nodes: list = []
+            mx = B.o_max(nodes, L.s_nodes(L.strip(a), nodes))
+            ext = -(-mx // 8) * 8 + 8 * n
+            a, b = ["delim", a, ext], ["delim", b, ext]
+    elif sub == "shape":
+        # one kind, one name, one bit length set - different members
+        k = rng.choice(["plain", "headed"])
+        if k == "plain":
+            bits = 8 * rng.randint(1, 12)
+            a, b = ["struct", fixed_fields(rng, bits)], ["struct", fixed_fields(rng, bits)]
+        else:
+            a, _n, form, par = gen_headed(rng)
+            b = gen_headed(rng, form, par)[0]
+        a, b = with_meta(a, **base), with_meta(b, **base)
+        if rng.random() < 0.3:
+            a[2], b[2] = rng.choice([0, 1, 2]), rng.choice([0, 1, 3])      # number of constants
+    elif sub == "approx":
+        # equal (min, max, residues mod 32), different sets, different kinds: [8 bits, uint8[<=n]] vs a union of few widths
+        n = rng.randint(4, 40)
+        ws = sorted({8, 8 * (n + 1)} | {8 * rng.randint(1, n + 1) for _ in range(rng.randint(3, 6))} | {16, 24, 32})
+        ws = [w for w in ws if w <= 8 * (n + 1)]
+        a = with_meta(["struct", [fixed_piece(rng, 8), ["varr", U8, n]]], **base)
+        b = with_meta(["union", [fixed_piece(rng, w, union=True) for w in ws]], **base)
+    elif sub == "meta":
+        # identical definitions except for one attribute of the definition itself
+        t = rng.choice([gen_headed(rng)[0], ["struct", gen_fields(rng, False)], ["union", gen_fields(rng, True)]])
+        if rng.random() < 0.3:
+            t = ["delim", t, ext_for(rng, t)]
+        key = rng.choice(sorted(META_ALTS))
+        a = with_meta(t, **base)
+        cur = dict(META_DEFAULT)
+        cur.update(base)
+        b = with_meta(copy.deepcopy(t), **dict(base, **{key: META_ALTS[key](rng, cur[key])}))
+        sub = "meta-" + key
+    else:
+        # one kind, one bit length set, the string forms differ in one place: element type vs capacity, cast mode
+        w, c = rng.choice([(8, 4), (8, 2), (16, 2), (8, 8), (16, 4)])
+        k = rng.choice(["farr", "varr"])
+        cm = rng.choice(["uintsat", "uinttrunc"])
+        a = [k, ["prim", w, cm], c]
+        b = rng.choice([[k, ["prim", w, "uinttrunc" if cm == "uintsat" else "uintsat"], c],
+                        ["farr", ["prim", 2 * w, cm], c // 2] if k == "farr" else [k, ["prim", w, "intsat"], c],
+                        [k, ["farr", ["prim", w, cm], 1], c]])
+    return (a, b, sub) if rng.random() < 0.5 else (b, a, sub)
+
+
 def valid_any(t) -> bool:
     if t[0] == "svc":
         return all(st[0] in ("struct", "union", "delim") and L.s_valid(L.strip(st)) for st in (t[1], t[2]))
@@ -573,7 +813,24 @@ def valid_any(t) -> bool:
 def gen_special(rng, prop):
     """History and cross-kind cases (see the module docstring)."""
     for _ in range(100):
-        what = rng.choice(["hist", "hist", "hist", "hist", "xkind", "xkind", "xkind", "hist-attr", "hist-attr", "xattr", "xvalue"])
+        what = rng.choice(["hist", "hist", "hist", "hist", "xkind", "xkind", "xkind", "hist-attr", "hist-attr", "xattr", "xvalue",
+                           "alike", "alike", "alike", "alike", "alike"])
+        if what == "alike":
+            a, b, sub = gen_lookalike(rng)
+            if not (valid_any(a) and valid_any(b) and affordable(a) and affordable(b)):
+                continue
+            x = rng.random()
+            if x < 0.2 and not (a[0] == "prim" or b[0] == "prim"):
+                # the look-alikes as the types of two attributes with one name (and, sometimes, two docs)
+                nm = rng.choice(["x", "y"])
+                da, db = {"type": desc_key(a), "name": nm, "value": None}, {"type": desc_key(b), "name": nm, "value": None}
+                if rng.random() < 0.3:
+                    da["doc"], db["doc"] = "one", rng.choice(["one", "two"])
+                return {"kind": "attr", "class": "alike", "sub": sub, "a": da, "b": db}
+            c = {"kind": "type", "class": "alike", "sub": sub, "a": desc_key(a), "b": desc_key(b)}
+            if x > 0.85:
+                c["hist_a"] = gen_hist(rng, a)
+            return c
         if what == "xkind":
             a, b = gen_xkind(rng)
             if not (valid_any(a) and valid_any(b) and affordable(a) and affordable(b)):
@@ -667,7 +924,8 @@ def layout_sig(pydsdl, o):
         if isinstance(o, pydsdl.ServiceType):
             sig += [layout_sig(pydsdl, o.request_type), layout_sig(pydsdl, o.response_type)]
         if isinstance(o, pydsdl.CompositeType):
-            sig += [None if isinstance(o, pydsdl.ServiceType) else o.extent, [str(a) for a in o.attributes], o.full_name, tuple(o.version), o.deprecated, o.fixed_port_id]
+            sig += [None if isinstance(o, pydsdl.ServiceType) else o.extent, [str(a) for a in o.attributes], o.full_name, tuple(o.version), o.deprecated, o.fixed_port_id,
+                    o.doc, [(type(a).__name__, a.name, a.doc) for a in o.attributes], str(o.source_file_path), o.has_parent_service]
         return sig
     return None
 
@@ -681,10 +939,14 @@ def pickle_check(pydsdl, o) -> typing.Optional[str]:
         return "unpickled object is not equal to the original"
     if hash(r) != hash(o):
         return "unpickled object hashes differently"
-    if str(r) != str(o) or type(r) is not type(o):
+    if type(r) is not type(o) or (str(r) != str(o) and not isinstance(o, pydsdl.BitLengthSet)):
         return "unpickled object has another string form / class: %s vs %s" % (r, o)
     if layout_sig(pydsdl, r) != layout_sig(pydsdl, o):
         return "unpickled object has another layout / attributes"
+    if isinstance(o, pydsdl.BitLengthSet) and (r.min, r.max, sorted(r % 32)) != (o.min, o.max, sorted(o % 32)):
+        return "unpickled bit length set has another min / max / residues"
+    if hasattr(o, "data_type") and (r.name, r.doc, str(r.data_type), layout_sig(pydsdl, r.data_type)) != (o.name, o.doc, str(o.data_type), layout_sig(pydsdl, o.data_type)):
+        return "unpickled attribute has another name / doc / data type"
     return None
 
 
@@ -716,51 +978,271 @@ def nested_check(pydsdl, obj, desc) -> typing.Optional[str]:
     return None
 
 
+def obs_key(pydsdl, o):
+    """What the property lets equality depend on, as the OBJECT shows it: (class, string form, (min, max, residues mod 32))."""
+    try:
+        b = o.bit_length_set
+        bk = [b.min, b.max, sorted(b % 32)]
+    except TypeError:
+        bk = ["no bit length set"]
+    return [type(o).__name__, str(o), bk]
+
+
+def plain_diff(x, y, where: str, strict_str: bool = True) -> typing.Optional[str]:
+    """Two objects that stand for ONE value (an object and its copy / unpickled image / independently built twin)."""
+    if type(x) is not type(y):
+        return "%s: classes %s / %s" % (where, type(x).__name__, type(y).__name__)
+    if not (x == y and y == x) or x != y:
+        return "%s %s: not equal to %s" % (where, x, y)
+    if hash(x) != hash(y):
+        return "%s %s: equal objects hash differently (%d / %d)" % (where, x, hash(x), hash(y))
+    if y not in {x} or x not in {y} or len({x, y}) != 1 or {x: 1}.get(y) != 1 or {y: 1}.get(x) != 1:
+        return "%s %s: set / dict lookup by the equal object fails" % (where, x)
+    if strict_str and str(x) != str(y):
+        return "%s: string forms %s / %s" % (where, x, y)
+    return None
+
+
+def value_diff(pydsdl, x, y, where: str) -> typing.Optional[str]:
+    """plain_diff, and the same for everything the object is made of (by kind of object)."""
+    if isinstance(x, pydsdl.BitLengthSet):
+        d = plain_diff(x, y, where, strict_str=False)
+        if d is None and isinstance(y, pydsdl.BitLengthSet) and (x.min, x.max, sorted(x % 32), sorted(x % 8)) != (y.min, y.max, sorted(y % 32), sorted(y % 8)):
+            d = "%s: min / max / residues differ" % where
+        return d
+    if isinstance(x, pydsdl.SerializableType):
+        return twin_diff(pydsdl, x, y, where) if type(x) is type(y) else plain_diff(x, y, where)
+    d = plain_diff(x, y, where)
+    if d is None and hasattr(x, "data_type"):       # attributes
+        d = twin_diff(pydsdl, x.data_type, y.data_type, where + ".data_type")
+        if d is None and (x.name, getattr(x, "doc", None)) != (y.name, getattr(y, "doc", None)):
+            d = "%s: name / doc differ" % where
+        if d is None and hasattr(x, "value"):
+            d = plain_diff(x.value, y.value, where + ".value")
+    return d
+
+
+def images_diff(pydsdl, obj, twin, where: str) -> typing.Optional[str]:
+    """`obj` came from elsewhere (another process); `twin` was built here: obj and every image of obj made HERE
+    (shallow / deep copy, pickle round trip) stand for the twin's value."""
+    d = value_diff(pydsdl, obj, twin, where)
+    if d:
+        return d
+    for how, img in (("copy", copy.copy(obj)), ("deepcopy", copy.deepcopy(obj)), ("pickle", pickle.loads(pickle.dumps(obj)))):
+        d = value_diff(pydsdl, img, twin, "%s of %s" % (how, where))
+        if d:
+            return d
+    return None
+
+
+def build_pair(pydsdl, case, history: bool = True):
+    """(a, b, history of a, history of b) of a case; `history=False`: the same two values built the plain way."""
+    k = case["kind"]
+    if k == "bls":
+        objs = B.build_impl(pydsdl, case["nodes"], case["how"])
+        return objs[case["a"]], objs[case["b"]], None, None
+    if k == "type":
+        a, ha = build_any(pydsdl, case["a"]["ty"], case.get("hist_a") if history else None)
+        b, hb = build_any(pydsdl, case["b"]["ty"], case.get("hist_b") if history else None)
+        return a, b, ha, hb
+    if k == "attr":
+        rec: list = []
+        if history:
+            a, b = build_attr(pydsdl, case["a"], record=rec), build_attr(pydsdl, case["b"], record=rec)
+        else:
+            a, b = build_attr(pydsdl, case["a"], hist=[], record=rec), build_attr(pydsdl, case["b"], hist=[], record=rec)
+        return a, b, rec[0], rec[1]
+    return build_value(pydsdl, case["a"]), build_value(pydsdl, case["b"]), None, None
+
+
+def bundle(pydsdl, a, b) -> dict:
+    """What crosses the process boundary: the two objects alone, in containers, and inside bigger objects."""
+    out = {"a": a, "b": b, "list": [a, b, a], "tuple": (b, a), "dict": {"k": a, "l": [b]}}
+    try:
+        if isinstance(a, pydsdl.SerializableType) and not isinstance(a, pydsdl.ServiceType) and not isinstance(a, pydsdl.VoidType) \
+                and not (isinstance(a, pydsdl.CompositeType) and a.has_parent_service):
+            out["field_of_a"] = pydsdl.Field(a, "w")
+            if not isinstance(a, (pydsdl.UTF8Type, pydsdl.ByteType)):
+                out["holder_of_a"] = pydsdl.StructureType(
+                    name="ns.Holder", version=pydsdl.Version(1, 0), attributes=[pydsdl.Field(a, "w"), pydsdl.PaddingField(pydsdl.VoidType(8)), pydsdl.Constant(pydsdl.UnsignedIntegerType(8, pydsdl.PrimitiveType.CastMode.SATURATED), "C", pydsdl.Rational(7))],
+                    deprecated=False, fixed_port_id=None, source_file_path=Path("/nonexistent/ns/Holder.1.0.dsdl"), has_parent_service=False)
+    except pydsdl.InvalidDefinitionError:
+        pass   # e.g. a deprecated type cannot be held by a non-deprecated one
+    return out
+
+
+def bundle_diff(pydsdl, got: dict, fresh: dict) -> typing.Optional[str]:
+    if sorted(got) != sorted(fresh):
+        return "bundle keys %s / %s" % (sorted(got), sorted(fresh))
+    pairs = [("a", got["a"], fresh["a"]), ("b", got["b"], fresh["b"]), ("list[0]", got["list"][0], fresh["a"]), ("list[1]", got["list"][1], fresh["b"]),
+             ("tuple[0]", got["tuple"][0], fresh["b"]), ("dict value", got["dict"]["k"], fresh["a"]), ("dict list value", got["dict"]["l"][0], fresh["b"])]
+    for k in ("field_of_a", "holder_of_a"):
+        if k in fresh:
+            pairs.append((k, got[k], fresh[k]))
+    for where, x, y in pairs:
+        # the two objects themselves also through every kind of image made on this side; their other occurrences as they are
+        d = images_diff(pydsdl, x, y, where) if where in ("a", "b") else value_diff(pydsdl, x, y, where)
+        if d:
+            return d
+    return None
+
+
+def xproc_child() -> None:
+    """Runs in ANOTHER interpreter process (other string-hash seed): unpickle the parent's bundle, build the same values
+    here, compare; send a bundle built (and hashed) here back."""
+    import json
+    import sys
+
+    pydsdl = common.import_pydsdl()
+    req = json.loads(sys.stdin.read())
+    a, b, _, _ = build_pair(pydsdl, req["case"], history=False)
+    fresh = bundle(pydsdl, a, b)
+    try:
+        got = pickle.loads(bytes.fromhex(req["blob"]))
+        d = bundle_diff(pydsdl, got, fresh)
+    except Exception as ex:
+        d = "unpickling / using the unpickled objects raised %s: %s" % (type(ex).__name__, ex)
+    for o in (a, b):
+        hash(o)
+    print(json.dumps({"diff": d, "back": pickle.dumps(fresh).hex(), "seed": sys.flags.hash_randomization and __import__("os").environ.get("PYTHONHASHSEED")}))
+
+
 _CHILD = r"""
-import sys, json, pickle
+import sys
 sys.path.insert(0, %r)
 sys.path.insert(0, %r)
 import common
 from suites import values as V
-pydsdl = common.import_pydsdl()
-req = json.loads(sys.stdin.read())
-twin = V.build_any(pydsdl, req["ty"])[0]
-obj = pickle.loads(bytes.fromhex(req["blob"]))
-print(json.dumps({"eq": bool(obj == twin and twin == obj), "hash_eq": hash(obj) == hash(twin), "in_set": obj in {twin}, "str_eq": str(obj) == str(twin)}))
+V.xproc_child()
 """
 
 
-def cross_process_check(desc_ty, obj) -> typing.Optional[str]:
-    """Pickle here (after hashing), unpickle in a process with ANOTHER hash seed, compare with an independently built twin."""
+def cross_process_check(pydsdl, case, a, b) -> typing.Optional[str]:
+    """Pickle here (after hashing), unpickle in a process with ANOTHER hash seed and compare there with independently
+    built twins; then the same in the other direction."""
     import json
     import os
     import subprocess
     import sys
 
-    hash(obj)
-    blob = pickle.dumps(obj).hex()
+    for o in (a, b):
+        hash(o)
+    mine = bundle(pydsdl, a, b)
+    for o in mine.values():
+        try:
+            hash(o)
+        except TypeError:
+            pass    # the containers
+    c = {k: v for k, v in case.items() if k not in ("id", "hist_a", "hist_b")}
     env = dict(os.environ)
-    env["PYTHONHASHSEED"] = "12345"
+    env["PYTHONHASHSEED"] = "12345" if env.get("PYTHONHASHSEED") != "12345" else "54321"
     env["VERIF_REPO"] = str(common.REPO)
     code = _CHILD % (str(common.REPO), str(Path(__file__).resolve().parent.parent))
     try:
-        r = subprocess.run([sys.executable, "-c", code], input=json.dumps({"ty": desc_ty, "blob": blob}), env=env,
-                           stdout=subprocess.PIPE, stderr=subprocess.PIPE, text=True, timeout=120)
+        r = subprocess.run([sys.executable, "-c", code], input=json.dumps({"case": c, "blob": pickle.dumps(mine).hex()}), env=env,
+                           stdout=subprocess.PIPE, stderr=subprocess.PIPE, text=True, timeout=100)
     except subprocess.TimeoutExpired:
         return "unpickling in another process timed out"
     if r.returncode != 0:
-        return "unpickling in another process failed: %s" % r.stderr[-200:]
+        return "unpickling in another process failed: %s" % r.stderr[-300:]
     res = json.loads(r.stdout.strip().splitlines()[-1])
-    if not all(res.values()):
-        return "object pickled here and unpickled under another hash seed vs an independently built twin: %s" % res
+    if res["diff"]:
+        return "pickled here, unpickled by a process with another hash seed, against a twin built there: %s" % res["diff"]
+    try:
+        back = pickle.loads(bytes.fromhex(res["back"]))
+        d = bundle_diff(pydsdl, back, mine)
+    except Exception as ex:
+        d = "raised %s: %s" % (type(ex).__name__, ex)
+    if d:
+        return "pickled by a process with another hash seed, unpickled here, against a twin built here: %s" % d
     return None
+
+
+def corpus_alike() -> list:
+    """Look-alikes whose every observable but one coincides (see gen_lookalike)."""
+    q = {"name": "Q"}
+    u16, u24 = ["prim", 16, "uintsat"], ["prim", 24, "uintsat"]
+    hdr = ["struct", [u16, ["void", 8], ["varr", U8, 255]]]                      # {32 + 8k | k <= 255}
+    hdr_u = ["union", [u24, ["struct", [u16, ["varr", U8, 3]]]]]                  # {32 + 8k | k <= 3}
+    pairs = [
+        ("sealed-delim", with_meta(["struct", [u16, u16]], **q), with_meta(["delim", ["struct", []], 0], **q)),
+        ("sealed-delim", with_meta(hdr, **q), with_meta(["delim", ["struct", [U8]], 2040], **q)),
+        ("sealed-delim", with_meta(["delim", ["union", [U8, u16]], 24], **q), with_meta(hdr_u, **q)),
+        ("sealed-delim", with_meta(["struct", [["varr", ["prim", 8, "byte"], 70000]]], **q), with_meta(["delim", ["struct", [["varr", U8, 9]]], 560000], **q)),
+        ("struct-union", with_meta(["struct", [U8, u16]], **q), with_meta(["union", [u16, u16]], **q)),
+        ("approx", with_meta(["struct", [U8, ["varr", U8, 7]]], **q), with_meta(["union", [["prim", w, "uintsat"] for w in (8, 16, 24, 32, 64)]], **q)),
+        ("shape", with_meta(["struct", [u16]], **q), with_meta(["struct", [U8, ["void", 8]]], **q)),
+        ("meta-dep", with_meta(["struct", [U8]], **q), with_meta(["struct", [U8]], name="Q", dep=True)),
+        ("meta-pid", with_meta(["struct", [U8]], **q), with_meta(["struct", [U8]], name="Q", pid=7509)),
+        ("meta-ver", with_meta(["struct", [U8]], **q), with_meta(["struct", [U8]], name="Q", ver=[1, 1])),
+        ("meta-ns", with_meta(["delim", ["struct", [U8]], 8], **q), with_meta(["delim", ["struct", [U8]], 8], name="Q", ns="ns.sub")),
+    ]
+    out = []
+    for sub, a, b in pairs:
+        out.append({"kind": "type", "class": "alike", "sub": sub, "a": desc_key(a), "b": desc_key(b)})
+        out.append({"kind": "type", "class": "alike", "sub": sub, "a": desc_key(b), "b": desc_key(a)})
+    a, b = pairs[1][1], pairs[1][2]
+    out.append({"kind": "attr", "class": "alike", "sub": "sealed-delim", "a": {"type": desc_key(a), "name": "x", "value": None}, "b": {"type": desc_key(b), "name": "x", "value": None}})
+    out.append({"kind": "attr", "class": "alike", "sub": "doc", "a": {"type": desc_key(U8), "name": "x", "value": None, "doc": "one"},
+                "b": {"type": desc_key(U8), "name": "x", "value": None, "doc": "two"}})
+    return out
+
+
+def corpus_xproc() -> list:
+    """One object of every kind the property covers crosses a process boundary (pickle <-> another hash seed)."""
+    u16 = ["prim", 16, "uintsat"]
+    s1 = ["struct", [U8, ["void", 3], ["varr", ["struct", [u16], 2], 3]]]
+    types = [
+        U8, ["prim", 1, "bool"], ["prim", 32, "floattrunc"], ["prim", 7, "intsat"], ["void", 5], ["farr", ["prim", 8, "byte"], 3], ["varr", ["prim", 8, "utf8"], 300],
+        s1, ["union", [s1, u16]], ["delim", s1, 1024], ["varr", ["delim", ["union", [U8, u16]], 64], 2],
+        ["svc", ["struct", [U8]], ["delim", ["union", [u16, U8]], 64]], with_meta(["struct", [u16], 1], name="Q", ver=[0, 3], dep=True, pid=11, doc="d"),
+    ]
+    out = [{"kind": "type", "xproc": True, "a": desc_key(t), "b": desc_key(copy.deepcopy(t))} for t in types]
+    attrs = [
+        {"type": desc_key(U8), "name": "x", "value": None},
+        {"type": desc_key(["void", 8]), "name": "", "value": None},
+        {"type": desc_key(s1), "name": "y", "value": None, "doc": "doc"},
+        {"type": desc_key(U8), "name": "A", "value": ["rat", 200, 1]},
+        {"type": desc_key(["prim", 1, "bool"]), "name": "B", "value": ["bool", True]},
+        {"type": desc_key(["prim", 32, "floatsat"]), "name": "C", "value": ["rat", -3, 4]},
+        {"type": desc_key(U8), "name": "D", "value": ["str", [97]]},
+    ]
+    out += [{"kind": "attr", "xproc": True, "a": d, "b": copy.deepcopy(d)} for d in attrs]
+    values = [["rat", 2, 4], ["rat", 10**30, 7], ["bool", False], ["str", [ord(c) for c in "café"]], ["str", []],
+              ["set", [["str", [97]], ["str", [98, 99]]]], ["set", [["rat", 1, 2], ["rat", 3, 1]]]]
+    out += [{"kind": "value", "xproc": True, "a": v, "b": copy.deepcopy(v)} for v in values]
+    out.append({"kind": "bls", "xproc": True, "nodes": [["leaf", [8, 16]], ["rrep", 0, 3], ["leaf", [32]], ["cat", [2, 1]], ["pad", 3, 8]],
+                "how": ["set", "", "int", "op", ""], "a": 4, "b": 1})
+    return out
+
+
+XPROC_SHARE = 0.04
+
+
+def xproc_size(case) -> int:
+    """Number of objects a case builds (the cross-process probe compares them member by member, several times)."""
+    def size(t):
+        return n_nodes(t) + sum(st[2] for st in sub_types(t) if st[0] in ("struct", "union") and len(st) > 2)     # (+ constants)
+
+    if case["kind"] == "type":
+        return size(case["a"]["ty"]) + size(case["b"]["ty"])
+    if case["kind"] == "attr":
+        return size(case["a"]["type"]["ty"]) + size(case["b"]["type"]["ty"])
+    return 1
 
 
 class ValuesSuite(common.Suite):
     name = "values"
 
     def generate(self, rng, n, prop, tier):
-        return [gen_case(rng, prop) for _ in range(n)]
+        cases = []
+        for _ in range(n):
+            c = gen_case(rng, prop)
+            # a share of the cases of EVERY kind also crosses a process boundary (pickle <-> another hash seed)
+            if rng.random() < XPROC_SHARE and xproc_size(c) <= 80:
+                c["xproc"] = True
+            cases.append(c)
+        return cases
 
     def corpus(self, prop):
         u8 = ["prim", 8, "uintsat"]
@@ -798,24 +1280,13 @@ class ValuesSuite(common.Suite):
             {"kind": "attr", "class": "xkind", "a": {"type": desc_key(["void", 8]), "name": "", "value": None},
              "b": {"type": desc_key(["void", 8]), "name": "", "value": None, "as_field": True}},
             {"kind": "value", "class": "xkind", "a": ["rat", 1, 1], "b": ["bool", True]},
-        ]
+        ] + corpus_alike() + corpus_xproc()
 
     def run_impl(self, case):
         pydsdl = common.import_pydsdl()
+        k = case["kind"]
         try:
-            k = case["kind"]
-            if k == "bls":
-                objs = B.build_impl(pydsdl, case["nodes"], case["how"])
-                a, b = objs[case["a"]], objs[case["b"]]
-            elif k == "type":
-                a, ha = build_any(pydsdl, case["a"]["ty"], case.get("hist_a"))
-                b, hb = build_any(pydsdl, case["b"]["ty"], case.get("hist_b"))
-            elif k == "attr":
-                rec: list = []
-                a, b = build_attr(pydsdl, case["a"], record=rec), build_attr(pydsdl, case["b"], record=rec)
-                ha, hb = rec
-            else:
-                a, b = build_value(pydsdl, case["a"]), build_value(pydsdl, case["b"])
+            a, b, ha, hb = build_pair(pydsdl, case)
         except Exception as ex:
             return {"res": "exc:%s" % type(ex).__name__, "soft_msg": str(ex)[:200]}
         out: dict = {"res": "ok"}
@@ -824,12 +1295,17 @@ class ValuesSuite(common.Suite):
             out["sym"] = bool(b == a) == out["eq"] and bool(a != b) == (not out["eq"])
             out["refl"] = bool(a == a) and bool(b == b) and not (a != a)
             out["hash_eq"] = hash(a) == hash(b)
-            out["hash_stable"] = hash(a) == hash(a) and hash(copy.copy(a)) == hash(a) if k != "bls" else True
+            out["hash_stable"] = hash(a) == hash(a) and hash(copy.copy(a)) == hash(a) and hash(copy.deepcopy(b)) == hash(b)
             out["str_a"], out["str_b"] = str(a), str(b)
             out["cls_a"], out["cls_b"] = type(a).__name__, type(b).__name__
+            # what the objects THEMSELVES show of the observables the property lets equality depend on
+            if k == "type":
+                out["obs_a"], out["obs_b"] = obs_key(pydsdl, a), obs_key(pydsdl, b)
+            elif k == "attr":
+                out["obs_a"], out["obs_b"] = obs_key(pydsdl, a.data_type), obs_key(pydsdl, b.data_type)
             # equal objects are interchangeable as set members / dict keys; unequal ones are two members
             out["container_ok"] = ((b in {a}) == out["eq"] and (a in {b}) == out["eq"] and len({a, b}) == (1 if out["eq"] else 2)
-                                   and ({a: 1}.get(b) == 1) == out["eq"] and ([b].count(a) == 1) == out["eq"]) if k != "bls" else True
+                                   and ({a: 1}.get(b) == 1) == out["eq"] and ([b].count(a) == 1) == out["eq"])
             if k in ("type", "attr"):
                 hk = None
                 if k == "type":
@@ -845,15 +1321,15 @@ class ValuesSuite(common.Suite):
             out["alias_ok"] = al is None
             if al:
                 out["soft_alias"] = al
-            pk = None if k == "bls" else (pickle_check(pydsdl, a) or pickle_check(pydsdl, b))
+            pk = pickle_check(pydsdl, a) or pickle_check(pydsdl, b)
             if k == "type":
                 nk = nested_check(pydsdl, a, case["a"]["ty"]) or nested_check(pydsdl, b, case["b"]["ty"])
                 if nk:
                     out["nested_ok"] = False
                     out["soft_nested"] = nk
-                # a deterministic sample of the cases also crosses a process boundary
-                if pk is None and (len(out["str_a"]) + case["a"]["ty"][0].__len__() + len(str(case["a"]["ty"]))) % 23 == 0 or case.get("xproc"):
-                    pk = cross_process_check(case["a"]["ty"], a)
+            # the cases the generator marked also cross a process boundary (both ways), whatever kind of object they hold
+            if pk is None and case.get("xproc"):
+                pk = cross_process_check(pydsdl, case, a, b)
             out["pickle_ok"] = pk is None
             if pk:
                 out["soft_pickle"] = pk
@@ -916,6 +1392,13 @@ class ValuesSuite(common.Suite):
         if impl.get("history_ok") is False:
             return "history: %s" % impl.get("soft_history")
         k = case["kind"]
+        # equal objects are indistinguishable in every observable the property lets equality depend on (judged on what the
+        # objects themselves show, whatever they were built from)
+        if impl["eq"] and impl.get("obs_a") != impl.get("obs_b"):
+            names = ("kind", "string form", "bit length set (min, max, residues mod 32)")
+            diff = [n for n, x, y in zip(names, impl["obs_a"], impl["obs_b"]) if x != y]
+            return "%s compare equal although they differ in %s: %s %s vs %s %s" % (
+                "types" if k == "type" else "attributes whose data types", ", ".join(diff), impl["obs_a"][0], impl["obs_a"][1], impl["obs_b"][0], impl["obs_b"][1])
         if k == "type" or k == "attr":
             da = case["a"] if k == "type" else case["a"]["type"]
             db = case["b"] if k == "type" else case["b"]["type"]
@@ -928,7 +1411,8 @@ class ValuesSuite(common.Suite):
                     return "class: %s / %s, expected %s / %s" % (impl["cls_a"], impl["cls_b"], da["cls"], db["cls"])
             if k == "attr":
                 same_rest = case["a"]["name"] == case["b"]["name"] and val_eq(case["a"]["value"], case["b"]["value"])
-                if same_desc and same_rest and not impl["eq"]:
+                same_doc = case["a"].get("doc", "") == case["b"].get("doc", "")      # (the property is silent about docs)
+                if same_desc and same_rest and same_doc and not impl["eq"]:
                     return "attributes built from equal descriptions are unequal"
                 if (differs or not same_rest) and impl["eq"]:
                     return "attributes that differ in type / name / value compare equal: %s vs %s" % (impl["str_a"], impl["str_b"])
@@ -977,6 +1461,14 @@ class ValuesSuite(common.Suite):
         yield "kind:" + case["kind"]
         if case.get("class"):
             yield "class:" + case["class"]
+        if case.get("xproc"):
+            yield "xproc:" + case["kind"]
+            if impl.get("res") == "ok":
+                yield "xproc-cls:" + impl["cls_a"]
+        if case.get("class") == "alike":
+            da, db = (case["a"], case["b"]) if case["kind"] == "type" else (case["a"]["type"], case["b"]["type"])
+            same = (da["cls"] == db["cls"], da["str"] == db["str"], bls_key(da["ty"]) == bls_key(db["ty"]))
+            yield "alike:%s:%s:kind%sstr%sbls%s" % (case["kind"], case.get("sub"), *("=" if x else "!" for x in same))
         hists = [case.get("hist_a"), case.get("hist_b")] if case["kind"] == "type" else \
             [case["a"].get("hist"), case["b"].get("hist")] if case["kind"] == "attr" else []
         for hh in hists:
